@@ -828,7 +828,21 @@ def handleSpec (name : String) (ins ans : List String) : String :=
           let parts := rs.map (fun r => match r with
             | .ok k => s!"sat:acq={k.acq}:rel={k.rel}"
             | .error e => s!"unsat:{e}")
+          -- generalised assumptions (`Spec.StreamObserved2`): early / wrong-phase first hits allowed
+          let rs2 := Spec.findTransmission2 me ticks bl
+          let (all2, why2, parts2) := match Spec.allFound2 rs2 with
+            | some segs =>
+              -- every burst located: the verdict is `decide` of `Spec.StreamObserved2`; per burst, the first failing clause
+              let whys := Spec.chainWhy2 me ticks 0 segs
+              let ps := (segs.zip whys).map (fun ((g : Spec.BurstSpec2), (w : String)) =>
+                if w == "none" then s!"sat:acq={g.acq}:sync={g.sync}:rel={g.rel}" else s!"unsat:{w}:acq={g.acq}:sync={g.sync}:rel={g.rel}")
+              if Spec.streamObserved2B me ticks segs then (true, "sat", ps)
+              else (false, s!"unsat:{(whys.drop segs.length).headD "burst_clauses"}", ps)
+            | none => (false, "n/a", rs2.map (fun (r : Except String Spec.BurstSpec2) => match r with
+                | Except.ok g => s!"found:acq={g.acq}:sync={g.sync}:rel={g.rel}"
+                | Except.error e => s!"unsat:{e}"))
           s!"ok fe_all={if allOk then "sat" else "unsat"} " ++ " ".intercalate (parts.map (fun p => s!"fe_burst={p}")) ++ s!" fe_stream={why}"
+            ++ s!" fe2_all={if all2 then "sat" else "unsat"} " ++ " ".intercalate (parts2.map (fun p => s!"fe2_burst={p}")) ++ s!" fe2_stream={why2}"
         | _, _, _, _, _ => "FAIL unparsable"
       | _ => "FAIL unparsable"
     | "c08hold" =>
